@@ -13,10 +13,10 @@ From QV Require Import Model.C20 Proofs.C20 Proofs.C20_enum Proofs.C20_alg.
 Open Scope Z_scope.
 
 (* ---------------------------------------------------------------- ladder *)
-(* destroy(N, offset) for every N >= 2: an N x N matrix whose only non-zero
-   elements are <n-1|a|n> = sqrt(n + offset) *)
+(* destroy(N, offset) for every N >= 1: an N x N matrix whose only non-zero
+   elements are <n-1|a|n> = sqrt(n + offset) (the 1x1 zero operator for N = 1) *)
 Theorem C20_destroy_matrix_elements :
-  forall N off, 2 <= N ->
+  forall N off, 1 <= N ->
   exists m, destroy_rad N off = Ok m /\ dim m = Z.to_nat N /\
     forall i j, (i < Z.to_nat N)%nat -> (j < Z.to_nat N)%nat ->
       zentry m i j = if (j =? S i)%nat then off + Z.of_nat j else 0.
@@ -24,7 +24,7 @@ Proof. exact destroy_rad_ok. Qed.
 Print Assumptions C20_destroy_matrix_elements.
 
 Theorem C20_create_matrix_elements :
-  forall N off, 2 <= N ->
+  forall N off, 1 <= N ->
   exists m, create_rad N off = Ok m /\ dim m = Z.to_nat N /\
     forall i j, (i < Z.to_nat N)%nat -> (j < Z.to_nat N)%nat ->
       zentry m i j = if (i =? S j)%nat then off + Z.of_nat i else 0.
@@ -39,21 +39,14 @@ Theorem C20_num_matrix_elements :
 Proof. exact num_diag_ok. Qed.
 Print Assumptions C20_num_matrix_elements.
 
-(* The property asks for every admissible dimension "including 1"; the
-   faithful model of the current code raises for N = 1 (the empty diagonal is
-   read as "no diagonals").  Full statement, not provable today:
-     forall N off, 1 <= N -> exists m, destroy_rad N off = Ok m /\ ...      *)
-Theorem C20_destroy_dimension_one_refuted :
-  exists N off, N = 1 /\ 0 <= off /\ destroy_rad N off = Err EDiagCount
-                /\ create_rad N off = Err EDiagCount.
-Proof. exists 1, 0. repeat split; try lia; reflexivity. Qed.
-Print Assumptions C20_destroy_dimension_one_refuted.
-
-(* ... and for every N <= 1 and offset *)
-Theorem C20_destroy_dimension_one_error_branch :
-  forall N off, N <= 1 -> destroy_rad N off = Err EDiagCount /\ create_rad N off = Err EDiagCount.
-Proof. intros N off H. split; [now apply destroy_rad_dim1|now apply create_rad_dim1]. Qed.
-Print Assumptions C20_destroy_dimension_one_error_branch.
+(* inadmissible N <= 0 is not rejected: it gives the same 1x1 zero operator
+   as N = 1 (error branch of the totalised model: there is none any more) *)
+Theorem C20_destroy_dimension_le_one :
+  forall N off, N <= 1 ->
+    destroy_rad N off = Ok {| dim := 1; dgs := [(1, [])] |} /\
+    create_rad N off = Ok {| dim := 1; dgs := [(-1, [])] |}.
+Proof. intros N off H. split; [now apply destroy_rad_le1|now apply create_rad_le1]. Qed.
+Print Assumptions C20_destroy_dimension_le_one.
 
 (* a a^dag and a^dag a on number states, truncated commutation relation:
      [a, a^dag] = 1 + offset |0><0| - (N + offset) |N-1><N-1|  *)
@@ -61,7 +54,7 @@ Theorem C20_truncated_commutator :
   forall (R : Type) (rO rI : R) (radd rmul rsub : R -> R -> R) (ropp : R -> R)
          (Rth : ring_theory rO rI radd rmul rsub ropp eq) (sq : Z -> R),
     sq 0 = rO ->
-  forall N off, 2 <= N ->
+  forall N off, 1 <= N ->
     (forall n, off < n < N + off -> rmul (sq n) (sq n) = zr R rO rI radd rmul ropp n) ->
   forall ma mc, destroy_rad N off = Ok ma -> create_rad N off = Ok mc ->
   forall i j, (i < Z.to_nat N)%nat -> (j < Z.to_nat N)%nat ->
@@ -82,7 +75,7 @@ Theorem C20_adag_a_is_number :
   forall (R : Type) (rO rI : R) (radd rmul rsub : R -> R -> R) (ropp : R -> R)
          (Rth : ring_theory rO rI radd rmul rsub ropp eq) (sq : Z -> R),
     sq 0 = rO ->
-  forall N off, 2 <= N ->
+  forall N off, 1 <= N ->
     (forall n, off < n < N + off -> rmul (sq n) (sq n) = zr R rO rI radd rmul ropp n) ->
   forall ma mc mn, destroy_rad N off = Ok ma -> create_rad N off = Ok mc -> num_diag N off = Ok mn ->
   forall i j, (i < Z.to_nat N)%nat -> (j < Z.to_nat N)%nat ->
@@ -99,7 +92,7 @@ Print Assumptions C20_adag_a_is_number.
 (* hypotheses are satisfiable by a non-trivial instance: destroy(2, offset=3)
    over the integers with the integer square root (entry sqrt 4 = 2) *)
 Example C20_nonvacuous_ladder :
-  Z.sqrt 0 = 0 /\ 2 <= 2 /\ 0 <= 3 /\
+  Z.sqrt 0 = 0 /\ 1 <= 2 /\ 0 <= 3 /\
   (forall n, 3 < n < 2 + 3 -> Z.sqrt n * Z.sqrt n = zr Z 0 1 Z.add Z.mul Z.opp n) /\
   exists ma mc, destroy_rad 2 3 = Ok ma /\ create_rad 2 3 = Ok mc /\
                 rmat Z Z.sqrt ma 0%nat 1%nat = 2.
@@ -113,7 +106,7 @@ Qed.
 (* _jplus(j): <m+1| J+ |m> = sqrt((j-m)(j+m+1)); with i the row index and
    J = 2j the radicand is (i+1)(J-i) *)
 Theorem C20_jplus_matrix_elements :
-  forall J, 1 <= J ->
+  forall J, 0 <= J ->
   exists m, jplus_rad J = Ok m /\ dim m = Z.to_nat (J + 1) /\
     forall i j, (i < Z.to_nat (J + 1))%nat -> (j < Z.to_nat (J + 1))%nat ->
       zentry m i j = if (j =? S i)%nat then (Z.of_nat i + 1) * (J - Z.of_nat i) else 0.
@@ -128,18 +121,18 @@ Theorem C20_jz_matrix_elements :
 Proof. exact jz2_diag_ok. Qed.
 Print Assumptions C20_jz_matrix_elements.
 
-(* spin 0 (dimension 1): jmat(0, '+') raises; same root cause as destroy(1) *)
-Theorem C20_jplus_spin_zero_refuted : jplus_rad 0 = Err EDiagCount.
+(* spin 0 (dimension 1): the 1x1 zero operator *)
+Theorem C20_jplus_spin_zero : jplus_rad 0 = Ok {| dim := 1; dgs := [(1, [])] |}.
 Proof. reflexivity. Qed.
-Print Assumptions C20_jplus_spin_zero_refuted.
+Print Assumptions C20_jplus_spin_zero.
 
-(* angular momentum algebra for every spin j >= 1/2:
+(* angular momentum algebra for every spin j >= 0:
    [J+, J-] = 2 Jz,  [Jz, J+] = J+ (doubled),  2(J+J- + J-J+) + (2Jz)^2 = J(J+2) *)
 Theorem C20_spin_algebra :
   forall (R : Type) (rO rI : R) (radd rmul rsub : R -> R -> R) (ropp : R -> R)
          (Rth : ring_theory rO rI radd rmul rsub ropp eq) (sq : Z -> R),
     sq 0 = rO ->
-  forall J, 1 <= J ->
+  forall J, 0 <= J ->
     (forall i, 0 <= i < J -> rmul (sq ((i + 1) * (J - i))) (sq ((i + 1) * (J - i)))
                              = zr R rO rI radd rmul ropp ((i + 1) * (J - i))) ->
   forall mp mz, jplus_rad J = Ok mp -> jz2_diag J = Ok mz ->
@@ -162,7 +155,7 @@ Print Assumptions C20_spin_algebra.
 
 (* non-trivial instance: spin 1/2 over the integers (radicand 1) *)
 Example C20_nonvacuous_spin :
-  Z.sqrt 0 = 0 /\ 1 <= 1 /\
+  Z.sqrt 0 = 0 /\ 0 <= 1 /\
   (forall i, 0 <= i < 1 -> Z.sqrt ((i + 1) * (1 - i)) * Z.sqrt ((i + 1) * (1 - i))
                            = zr Z 0 1 Z.add Z.mul Z.opp ((i + 1) * (1 - i))) /\
   exists mp mz, jplus_rad 1 = Ok mp /\ jz2_diag 1 = Ok mz /\ Jp Z Z.sqrt mp 0%nat 1%nat = 1.
@@ -173,33 +166,28 @@ Proof.
 Qed.
 
 (* ------------------------------------------------ qdiags literal flags *)
-(* full statement (refuted below):
-     forall d, snd (qdiags_flags (Flat d) [0]) = Some (diag_is_unitary d)
-            /\ fst (qdiags_flags (Flat d) [0]) = Some (diag_is_herm d)       *)
-Theorem C20_qdiags_isunitary_flag_refuted :
-  exists d, snd (qdiags_flags (Flat d) [0]) = Some true /\ diag_is_unitary d = false.
-Proof. exists [(0, 0); (1, 0)]. split; reflexivity. Qed.     (* num(2) *)
-Print Assumptions C20_qdiags_isunitary_flag_refuted.
+(* for every Gaussian-integer diagonal the flags qdiags passes to Qobj say
+   exactly what holds of the matrix: main diagonal - Hermitian iff every entry
+   equals its conjugate, unitary iff every entry times its conjugate is 1 *)
+Theorem C20_qdiags_main_diagonal_flags_exact :
+  forall d, qdiags_flags (Flat d) [0] =
+    (Some (forallb (fun x => geqb (gconj x) x) d),
+     Some (forallb (fun x => geqb (gmul x (gconj x)) (1, 0)) d)).
+Proof. exact qdiags_flags_main. Qed.
+Print Assumptions C20_qdiags_main_diagonal_flags_exact.
 
-Theorem C20_qdiags_isherm_flag_refuted :
-  exists d, fst (qdiags_flags (Flat d) [0]) = Some true /\ diag_is_herm d = false.
-Proof. exists [(0, -1)]. split; reflexivity. Qed.            (* qdiags([-1j], 0) *)
-Print Assumptions C20_qdiags_isherm_flag_refuted.
+(* single off-diagonal: Hermitian iff entirely zero, never unitary *)
+Theorem C20_qdiags_offdiagonal_flags_exact :
+  forall d k, k <> 0 -> qdiags_flags (Flat d) [k] = (Some (diag_is_zero d), Some false).
+Proof. exact qdiags_flags_offdiagonal. Qed.
+Print Assumptions C20_qdiags_offdiagonal_flags_exact.
 
-(* a single off-diagonal is hard-wired to isherm=False; the zero matrix is a
-   counterexample (qdiags([0,0], 1)) *)
-Theorem C20_qdiags_offdiagonal_flag_refuted :
-  exists d k, k <> 0 /\ fst (qdiags_flags (Flat d) [k]) = Some false /\
-              forallb (fun x => geqb x (0, 0)) d = true /\ d <> [].
-Proof. exists [(0, 0); (0, 0)], 1. repeat split; try reflexivity; discriminate. Qed.
-Print Assumptions C20_qdiags_offdiagonal_flag_refuted.
-
-(* what does hold for every diagonal: a flag False is never wrong *)
-Theorem C20_qdiags_flags_false_sound_partial :
-  forall d, (fst (qdiags_flags (Flat d) [0]) = Some false -> diag_is_herm d = false) /\
-            (snd (qdiags_flags (Flat d) [0]) = Some false -> diag_is_unitary d = false).
-Proof. intros d. split; [apply qdiags_flag_false_sound|apply qdiags_unitary_flag_false_sound]. Qed.
-Print Assumptions C20_qdiags_flags_false_sound_partial.
+(* the former counterexamples now carry the right flags *)
+Example C20_qdiags_flags_former_witnesses :
+  qdiags_flags (Flat [(0, 0); (1, 0)]) [0] = (Some true, Some false) /\     (* num(2) *)
+  qdiags_flags (Flat [(0, -1)]) [0] = (Some false, Some true) /\            (* qdiags([-1j]) *)
+  qdiags_flags (Flat [(0, 0); (0, 0)]) [1] = (Some true, Some false).       (* zero matrix *)
+Proof. repeat split. Qed.
 
 (* ----------------------------------------------------- literal gate tables *)
 (* the checker run on every table generated from gates.py is sound *)
